@@ -21,7 +21,7 @@ RULE = ('(a) Utility::Match against the Gallina glob matcher: ALL patterns of le
         'declared per case through ScriptGlobal), the request carries filter_vars of that very name with a value that would flip the verdict (and names of navigation fields, this, globals), '
         'the user filter is on the generic path (match / regex / len / in) or on the targeted fast path, through GetFilterTargets with every handler\'s QueryDescription and the HTTP handlers; '
         'family join-same-name: Hosts named like CheckCommand / EventCommand / TimePeriod / Endpoint / Zone objects of the fixture, permissions differing per joined type, several joins per request '
-        'in every order, hosts and services as primary type, every serialised join observed; 45% of the mixed cases also declare globals and use free-name / function-call atoms. non-trivial = the case contains a query that returned at least one object or was refused; distinct = distinct script text')
+        'in every order, hosts and services as primary type, every serialised join observed; 45% of the mixed cases also declare globals and use free-name / function-call atoms. family attrs (round 5): GET /v1/objects/<type> through the real ObjectQueryHandler with every shape of attrs (absent, empty, ordinary fields, [config, navigation] fields, the object-valued navigation field Service.host, no_user_view fields, unknown names, fields of the other type), joins (bare prefix, <join>.<field> with ordinary / hidden / unknown fields, foreign prefixes), all_joins and meta (used_by, location, unknown), for users whose permission for the joined types is absent / plain / filtered: the KEY SET of every attrs dictionary, the joined objects, every config object embedded anywhere in a serialised value and the number of hidden fields among the keys are observed; one case compares the live reflection data of Host, Service, CheckCommand, EventCommand, TimePeriod, Endpoint with the regenerated field tables; family race (round 5): directed schedules - a modify / delete / action / query request (by URL name, name parameter, name list, type scan, fast path) is parked inside the permission filter's evaluation of the target, another writer takes the name lock, deletes the target and creates a new object of the same name with other attributes, the request continues: which OBJECT was acted on is observed. non-trivial = the case contains a query that returned at least one object or was refused; distinct = distinct script text')
 TRUSTED = ['model: coq/Perm/PmModel.v (transcription of FilterUtility::HasPermission/CheckPermission/EvaluateFilter/GetFilterTargets, '
            'ApplyRule::GetTargetHosts/GetTargetServices, the filter_vars shadowing guard, the namespace resets of the permission frame, the joins loop of ObjectQueryHandler; glob matcher proved equivalent to a declarative '
            'spec and compared exhaustively with Utility::Match on short strings)',
@@ -32,12 +32,16 @@ TRUSTED = ['model: coq/Perm/PmModel.v (transcription of FilterUtility::HasPermis
            '(tied by the source fact f_pm_perm_ns_private and by the env-separation family)',
            'source facts re-extracted each run: permission string and CheckPermission/GetFilterTargets call of every registered HTTP handler, '
            'navigation fields of Host/Service from the .ti files, structure of EvaluateFilter\'s binding loop (coq/Facts/Facts_c18.v)',
-           'harness/ops_pm.cpp: exception classes (ScriptError / invalid_argument), object sets and HTTP status are observed; no log text']
+           'harness/ops_pm.cpp: exception classes (ScriptError / invalid_argument), object sets and HTTP status are observed; no log text',
+           'attribute model coq/Perm/PmAttrs.v (transcription of ObjectQueryHandler::SerializeObjectAttrs and of the per-object part of HandleRequest: meta, attrs, joins), generic in the field table; the tables are regenerated from the .ti files and lib/base/objecttype.cpp (coq/Facts/Facts_c18.v f_pm_field_tables) and compared as sets with the live reflection data (op pm_fields); an embedded config object is recognised in a response as a dictionary with type = a config type and __name',
+           'concurrency model coq/Perm/PmConc.v: GetFilterTargets is ONE atomic step whose result satisfies C18_only_permitted at that moment (linearised at the resolution of the target), registry operations are atomic, ObjectNameLock is mutual exclusion per name, an object keeps the attributes it had when it was authorised; the tie samples ONE directed schedule per request shape (parking inside the permission filter through a side-effect-free native function pm_sig registered by the harness; no hook in /repo)']
 ASSUMPTIONS = ['ASCII permission strings and object names (String::ToLower and tolower agree on ASCII)',
                'object names are unique per type (ConfigObject registry) and contain no "!" (enforced by Icinga name validation)',
                'no empty-string values in filters (Icinga treats "" as Empty in ==)', 'filters do not mention the names EvaluateFilter binds (obj, host, service, navigation fields) as FREE names; as filter_vars KEYS those names are generated',
                'a free name keeps its kind (string / array of strings) in globals and filter_vars; regex literals are [A-Za-z0-9-]+',
-               'the used_by meta list and get_object() inside user filters are outside the statement (DESIGN.md C18)']
+               'the used_by meta list and get_object() inside user filters are outside the statement (DESIGN.md C18)',
+               'attribute names and join selectors are non-empty ASCII strings; values nested inside vars never hold config objects',
+               'the fixture objects are not API-created, so DELETE is refused by ConfigObjectUtility::DeleteObject for every object: for delete the race op can only observe that the NEW object stays untouched']
 
 
 FREE_SHARE = [0.0]     # share of atoms with free names / function calls in random filters (set per case)
